@@ -1494,7 +1494,7 @@ class Stream(AbstractStream):
                 self.copy_like(streams[0])
                 if Q: self.H = self.H + Q
             else:
-                self.copy_flow(streams[0])
+                self._imol.mix_from([streams[0]._imol])
         else:
             if energy_balance: H = sum([i.H for i in streams], Q)
             self.P = P = min([i.P for i in streams])
